@@ -13,6 +13,8 @@ structure State where
   down : List Nat := []     -- nodes that refuse connections (crashed but still selected)
   dists : List (Nat × Replication.Dist (Nat × Nat × List Nat)) := []   -- the task distributor of node i (members: (member id, node index))
   pollers : List (Nat × Replication.Poller) := []     -- the replication cycle service of node j, when started
+  pending : Option (Nat × Pending) := none
+  lastOut : String := ""            -- an exchange of node j whose document fetch is on its way
   -- a node holds many keyspaces; they share nothing but the clock and the membership, so the cluster model is instantiated
   -- once per keyspace: `c` is the current one, `others` the rest, `cur` its name
   others : List (String × Cluster) := []
@@ -117,6 +119,11 @@ def wbulk (st : State) (i : Nat) (targets : List Nat) (iss : Issued) (ts : Nat) 
       if acks == targets.length then s!"ok op={k} ts={ts}"
       else s!"consistency {acks}/{targets.length} op={k} ts={ts}")
 
+def showRepair (ks : String) : RepairOut → String
+  | .skipped => "skipped"
+  | .failed => "err"
+  | .synced m r => s!"synced {ks}:m{m}:r{r}"
+
 def step (st : State) (toks : List String) : State × String :=
   let c := st.c
   match toks with
@@ -191,6 +198,24 @@ def step (st : State) (toks : List String) : State × String :=
       let p' := p.cycle ((p.queue.foldl Replication.pollerStep { p with queue := [] }).live.map (·.1))
       let targets := (Membership.sortMembers p'.live).map (·.2)
       (targets.foldl (fun acc i => (repairAll acc j i true).1) { st with pollers := st.pollers.filter (·.1 ≠ j) }, "ok")
+    | none => (st, "bad-op")
+  | ["repair-begin", j, i, rf] =>
+    -- single-keyspace cases only (the other keyspaces of an exchange are fetched after the first one's documents)
+    match j.toNat?, i.toNat? with
+    | some j, some i =>
+      if !st.others.isEmpty then (st, "unsupported: several keyspaces")
+      else
+        match repairBegin c j i (rf == "1") with
+        | (c1, .finished out) => ({ st with c := c1, pending := some (j, ⟨i, [], [], 0, true⟩), lastOut := showRepair st.cur out }, "begun finished")
+        | (c1, .fetching p) => ({ st with c := c1, pending := some (j, p), lastOut := "" }, "begun fetching")
+    | _, _ => (st, "bad-op")
+  | ["repair-end", _, _] =>
+    match st.pending with
+    | some (j, p) =>
+      if st.lastOut != "" then ({ st with pending := none, lastOut := "" }, st.lastOut)
+      else
+        let (c1, out) := repairEnd c j p
+        ({ st with c := c1, pending := none }, showRepair st.cur out)
     | none => (st, "bad-op")
   | ["repairm", j] =>
     -- one round of the poller's production loop (`repair_members`): every other node in id order; a failed exchange is logged
